@@ -900,6 +900,27 @@ def fit_case(snap, use_mask, sky, ivd, o, tolerant=False):
             if not ok: py_ok = False; detail.append(f"{k}: implementation {got}, definition {v}")
     return coq, py_ok, detail
 
+def structure_defects(fit, dataset):
+    """the maps are STRUCTURES of the kind of the data (same class, an equal mask with the same geometry, the same storage
+    mode), and the structures DERIVED from them (.native / .slim) carry the same values on the unmasked pixels"""
+    out = []
+    data = dataset.data
+    if not hasattr(data, "store_native"): return out
+    mk = np.array(np.asarray(dataset.mask), dtype=bool)
+    with np.errstate(all="ignore"):
+        for name in ("data", "residual_map", "normalized_residual_map", "chi_squared_map", "signal_to_noise_map"):
+            v = getattr(fit, name)
+            if type(v) is not type(data): out.append(f"{name} is a {type(v).__name__}, the data is a {type(data).__name__}"); continue
+            if v.store_native != data.store_native: out.append(f"{name}: store_native = {v.store_native}, the data has {data.store_native}")
+            vm = np.array(np.asarray(v.mask), dtype=bool)
+            if vm.shape != mk.shape or not np.array_equal(vm, mk) or v.mask.pixel_scales != dataset.mask.pixel_scales or v.mask.origin != dataset.mask.origin:
+                out.append(f"{name} does not carry the dataset's mask / geometry")
+                continue
+            if name in ("residual_map", "chi_squared_map"):
+                a = np.asarray(v.native, dtype=float)[~mk]; b = np.asarray(v.slim, dtype=float)
+                if a.shape != b.shape or not np.array_equal(a, b, equal_nan=True): out.append(f"{name}.native and {name}.slim differ on the unmasked pixels")
+    return out
+
 def read_fit(fit, env, model, use_mask, sky, ivd, order=None, inv=None, tolerant=False):
     """snapshot the caller's arrays, read everything, check that the reads did not modify the caller's arrays
     -> (coq, py_ok, [detail], o)"""
@@ -911,6 +932,8 @@ def read_fit(fit, env, model, use_mask, sky, ivd, order=None, inv=None, tolerant
     ch = snapshot_changed(before, after)
     if ch:
         py_ok = False; detail.append("reading the fit modified the caller's " + ", ".join(ch) + " in place")
+    st = structure_defects(fit, env["dataset"])
+    if st: py_ok = False; detail.extend(st)
     if inv is not None and inv_fingerprint_changed(inv, ifp):
         py_ok = False; detail.append("reading the fit modified the inversion's reconstruction / regularization matrices / settings / preloads object in place")
     return coq, py_ok, detail, o
